@@ -318,6 +318,8 @@ Fixpoint find_comment_end (s : list N) : option (list N * list N) :=
 
 Definition cmp_delim (c : N) : bool := (c =? 126) || (c =? 124) || (c =? 94) || (c =? 36) || (c =? 42).
 
+Definition head_sat_name (r : list N) : bool := match r with d :: _ => name_cp d | [] => false end.
+
 (* an ident sequence has just been recognised at the head of s.  Inner
    consumers get `length s` as fuel: they take at most one step per code point. *)
 Definition lex_ident_like (s : list N) : list ftok * list N :=
@@ -360,6 +362,31 @@ Definition lex_delim (c : N) (r : list N) : list ftok * list N :=
   else if cmp_delim c && head_is 61 r then ([FTok (TLiteral p0 [c; 61])], tl r)
   else ([FTok (TLiteral p0 [c])], r).
 
+(* punctuation: at-keyword, hash, brackets, strings, comments, delimiters *)
+Definition lex_punct (skip : bool) (c : N) (r : list N) : list ftok * list N :=
+  if c =? 64 then
+    if starts_ident r then
+      let '(v, k) := consume_name (length r) r in ([FTok (TAtKeyword p0 v)], k)
+    else ([FTok (TLiteral p0 [64])], r)
+  else if c =? 35 then
+    if head_sat_name r || valid_escape r then
+      let '(v, k) := consume_name (length r) r in ([FTok (THash p0 v (starts_ident r))], k)
+    else ([FTok (TLiteral p0 [35])], r)
+  else if is_open c then ([FOpen c], r)
+  else if is_close c then ([FClose c], r)
+  else if is_quote c then
+    match consume_string (S (length r)) c r with
+    | (v, SClosed, k) => ([FTok (TString p0 v false)], k)
+    | (v, SEof, k) => ([FTok (TString p0 v true); FTok (TParseError p0 errEofInString)], k)
+    | (_, SNewline, k) => ([FTok (TParseError p0 errBadString)], k)
+    end
+  else if has_prefix [47; 42] (c :: r) then
+    match find_comment_end (tl r) with
+    | Some (txt, k) => (if skip then [] else [FTok (TComment p0 txt)], k)
+    | None => (if skip then [] else [FTok (TComment p0 (tl r))], [])
+    end
+  else lex_delim c r.
+
 (* one token from a non-empty input; `skip`: comments are dropped *)
 Definition lex_step (skip : bool) (s : list N) : list ftok * list N :=
   match s with
@@ -372,31 +399,9 @@ Definition lex_step (skip : bool) (s : list N) : list ftok * list N :=
       else if has_prefix [45; 45; 62] s then ([FTok (TLiteral p0 [45; 45; 62])], skipn 3 s)
       else if starts_ident s then lex_ident_like s
       else match consume_number s with
-      | Some (repr, k) => lex_numeric repr k
-      | None =>
-      if c =? 64 then
-        if starts_ident r then
-          let '(v, k) := consume_name (length r) r in ([FTok (TAtKeyword p0 v)], k)
-        else ([FTok (TLiteral p0 [64])], r)
-      else if c =? 35 then
-        if (match r with d :: _ => name_cp d | [] => false end) || valid_escape r then
-          let '(v, k) := consume_name (length r) r in ([FTok (THash p0 v (starts_ident r))], k)
-        else ([FTok (TLiteral p0 [35])], r)
-      else if is_open c then ([FOpen c], r)
-      else if is_close c then ([FClose c], r)
-      else if is_quote c then
-        match consume_string (S (length r)) c r with
-        | (v, SClosed, k) => ([FTok (TString p0 v false)], k)
-        | (v, SEof, k) => ([FTok (TString p0 v true); FTok (TParseError p0 errEofInString)], k)
-        | (_, SNewline, k) => ([FTok (TParseError p0 errBadString)], k)
-        end
-      else if has_prefix [47; 42] s then
-        match find_comment_end (tl r) with
-        | Some (txt, k) => (if skip then [] else [FTok (TComment p0 txt)], k)
-        | None => (if skip then [] else [FTok (TComment p0 (tl r))], [])
-        end
-      else lex_delim c r
-      end
+           | Some (repr, k) => lex_numeric repr k
+           | None => lex_punct skip c r
+           end
   end.
 
 (* every step consumes at least one code point: fuel = length + 1 is enough *)
